@@ -3,46 +3,62 @@ package ledger
 // C11 — A committed transaction cannot be committed again while valid; lease exclusion;
 // both across ledger restarts.
 //
-// Engine E-SEQ (explicit-state BFS over operation sequences of a REAL Ledger, see
+// Engine E-SEQ (explicit-state BFS over operation sequences of a REAL Ledger, driver in
 // verif_c11_driver_test.go), level model_checking.
 //
 // Universe U: every payment (sender in {A,B}) x (lease in {none,L1,L2}) x (every window
 // [fv,lv] inside [1,R+1] with lv-fv <= MaxTxnLife = 4); they differ in nothing else, so the
-// txid is a function of (sender, lease, window).
+// txid is a function of (sender, lease, window). R = 6 (quick) / 8 (thorough).
 //
-// A *scenario* picks 3 transactions of U that may be committed. Operations of a scenario:
-//   blk(S)   for every S subset of the scenario, |S| <= 2: build block Latest+1 with the
-//            real BlockEvaluator (TestTransactionGroup + TransactionGroup), Ledger.Validate,
-//            AddValidatedBlock; enabled only if the reference accepts every member of S
-//            (the rejections are checked by the sweep below, not by disabled ops);
+// A *scenario* picks 3 (one: 4) transactions of U that may be committed. Operations:
+//   blk(S)   for every S subset of the scenario, |S| <= 2 (incl. the empty block): build block
+//            Latest+1 with the real BlockEvaluator (TestTransactionGroup + TransactionGroup),
+//            re-validate it with Ledger.Validate, AddValidatedBlock; enabled only if the
+//            reference accepts every member of S (rejections are checked by the sweep below,
+//            not by disabled ops); rounds 1..R;
 //   flush    persist trackers up to Latest-MaxAcctLookback (production scheduleCommit path);
-//   reload   Ledger.reloadLedger;  reopen  Ledger.Close + OpenLedger on the same files.
-// Blocks are bounded by the horizon R; control ops are unbounded (states merge), so the
-// frontier empties: every placement of flush/reload/reopen in every history is explored.
+//   reload   Ledger.reloadLedger;  reopen  Ledger.Close + OpenLedger on the same databases.
+// Control ops are unbounded (states merge), so every exploration runs until the frontier is
+// empty: every placement of flush/reload/reopen in every history of the scenario.
+// Explorations = scenario x MaxAcctLookback in {0,2,(1)} x {in-memory SQLite kept alive
+// across Close by keeper connections, real files}.
 //
-// After EVERY operation (and inside every block before and after S was added) the full
-// sweep runs: for every transaction of U, at current = Latest+1,
+// After EVERY new operation (and inside every new block, after S was added) the full sweep
+// runs: for every transaction of U, at current = Latest+1,
 //   Ledger.CheckDup (alive ones), BlockEvaluator.TestTransactionGroup (all) and
-//   BlockEvaluator.TransactionGroup (all expected rejections + the scenario's own)
+//   BlockEvaluator.TransactionGroup (all expected rejections; the scenario's own when added)
 // are compared with the reference built from the accepted history:
-//   committed set {txid -> lastValid}, lease table {(sender,lease) -> expiry}.
+//   committed set {txid -> lastValid}, lease table {(sender,lease) -> expiry = lastValid}.
 // Oracle (property statement):
 //   dead (current outside [fv,lv])            -> TxnDeadError (window check), evaluator only
 //   committed earlier, still inside window    -> TransactionInLedgerError; if it carries a
-//        lease, LeaseInLedgerError is equally a correct rejection (its own lease is active)
+//        lease, LeaseInLedgerError is equally a correct rejection (its own lease is active;
+//        txTail checks the lease first, the in-block check the txid first)
 //   other txn, same (sender,lease) active     -> exactly LeaseInLedgerError
 //   otherwise                                 -> accepted
 // The reference never looks at flush/reload/reopen, so "identical before and after every
 // restart" is part of every comparison.
 //
-// State key: round, commit round of each scenario txn, tracker DB round, canonical dump of
-// the in-memory txTail (lastValid, recent leases, lowWaterMark) and of the persisted tail
-// rows. Nothing is abstracted away: merged states have identical txTail memory and disk.
+// State key: see key() — round, DB round, live committed set, live txTail memory, live
+// persisted tail.
 //
 // Not covered: transaction groups > 1, more than 2 txns per block, rekeyed senders,
 // consensus upgrades inside the window (FixTransactionLeases fixed true), power-loss
-// crashes (C09). Mutants demonstrated (see report): loadFromDisk one round short;
-// checkDup `<` on lease expiry; newBlock persisting lease TxnIdx 0.
+// crashes (C09), concurrency between checkDup and newBlock/commit.
+//
+// FINDING (unchanged tree, fixed by /repo 54f814311a): txTail.loadFromDisk loaded nothing when
+// the tracker DB round was exactly 1 -> double spend after a restart; see
+// /verif/findings/C11-txtail-reload-dbround1/. Re-introducing it is mutant 0 below.
+//
+// Mutants (bin/mut C11 ... --only, quick tier), all DETECTED:
+//   0. txtail.go loadFromDisk  `len(roundData) > 0` -> `dbRound > baseRound` (the original defect)
+//   1. txtail.go loadFromDisk  `old <= dbRound` -> `old < dbRound` (tail rebuilt one round short)
+//   2. txtail.go checkDup      `current <= expires` -> `current < expires`
+//   3. txtail.go newBlock      `TxnIdx: txnInc.Intra` -> `TxnIdx: 0` (needs a 2-txn block whose
+//      second txn holds a lease, a flush and a restart: expiry then comes from the other txn)
+//   4. eval/cow.go checkDup    `Hdr.Round <= expires` -> `<` (in-block lease, lastValid == round)
+//   5. txtail.go commitRound   forgetBefore `newBase()+1` -> `newBase()+3` (persisted tail too
+//      short; needs commit, 3 more rounds, flush, restart)
 
 import (
 	"context"
@@ -50,7 +66,10 @@ import (
 	"fmt"
 	"sort"
 	"strings"
+	"sync"
 	"testing"
+
+	"github.com/algorand/go-deadlock"
 
 	"github.com/algorand/go-algorand/config"
 	"github.com/algorand/go-algorand/data/basics"
@@ -185,8 +204,22 @@ type c11Sys struct {
 	maxRound basics.Round
 	run      *ve.Run
 	proto    config.ConsensusParams
-	fail     error // harness-level failure (not a verdict)
+	fail     error     // harness-level failure (not a verdict)
+	path     []byte    // ops applied so far
+	memo     *sync.Map // paths whose sweeps already passed (replays of explored prefixes skip them)
 }
+
+// fresh reports whether the op sequence applied so far (including the current op) is being
+// executed for the first time. Successors are generated by replaying an already explored
+// prefix and adding one op; New/Apply are deterministic, so the sweeps of the prefix would
+// only repeat comparisons that already passed. Only the new last step is swept (and its
+// block validated through Ledger.Validate).
+func (s *c11Sys) fresh() bool {
+	_, seen := s.memo.Load(string(s.path))
+	return !seen
+}
+
+func (s *c11Sys) done() { s.memo.Store(string(s.path), struct{}{}) }
 
 // sweep compares every universe transaction against the reference on evaluator ev (round
 // cur). viaLedger additionally queries Ledger.CheckDup (only meaningful on a fresh evaluator,
@@ -251,6 +284,10 @@ func (s *c11Sys) commitString() string {
 
 // headSweep = sweep on a fresh evaluator for Latest+1 (what a proposer / the pool sees now).
 func (s *c11Sys) headSweep(where string) error {
+	if !s.fresh() {
+		return nil
+	}
+	defer s.done()
 	ev, err := s.d.startEval()
 	if err != nil {
 		return ve.Violationf("C11:starteval", "%s: StartEvaluator failed: %v", where, err)
@@ -323,11 +360,14 @@ func (s *c11Sys) applyBlock(mask uint) (bool, error) {
 		}
 		s.ref.committed[idx] = cur
 	}
+	fresh := s.fresh()
 	// in-block view: everything just added is a duplicate / holds its lease already
-	if err := s.sweep(ev, cur, false, fmt.Sprintf("inside block %d", cur)); err != nil {
-		return true, err
+	if fresh {
+		if err := s.sweep(ev, cur, false, fmt.Sprintf("inside block %d", cur)); err != nil {
+			return true, err
+		}
 	}
-	if _, err := s.d.endBlock(ev); err != nil {
+	if _, err := s.d.endBlock(ev, fresh); err != nil {
 		return true, ve.Violationf("C11:block-rejected", "block %d built from accepted transactions was not accepted: %v (committed=%v)", cur, err, s.commitString())
 	}
 	return true, s.headSweep(fmt.Sprintf("after block %d", cur))
@@ -337,6 +377,7 @@ func (s *c11Sys) apply(op int, masks []uint) (bool, error) {
 	if s.fail != nil {
 		return false, nil
 	}
+	s.path = append(s.path, byte(op))
 	nb := len(masks)
 	switch {
 	case op < nb:
@@ -364,58 +405,64 @@ func (s *c11Sys) apply(op int, masks []uint) (bool, error) {
 	}
 }
 
-// key: canonical dump of everything that can influence future duplicate detection.
+// key: canonical form of everything that can influence FUTURE duplicate detection.
+//
+// Kept exactly: latest round, tracker DB round, per scenario txn {uncommitted, committed and
+// still inside its window, dead}, txTail.lowWaterMark, and the LIVE content of the txTail
+// memory and of the persisted tail rows. "Live" = entries whose lastValid / lease expiry is
+// >= Latest+1: every future query has current >= Latest+1, checkDup only consults
+// lastValid[lv] for lv >= current and lease entries with expiry >= current, and a future
+// loadFromDisk only keeps entries with lastValid > Latest. Dropped (cannot change any future
+// CheckDup/evaluator answer): entries already expired, the confirmation-round delta stored
+// next to a txid (only used by CheckConfirmedTail), which round a live lease was taken in,
+// the block-header cache and the not-yet-persisted serialized deltas (both functions of the
+// block history, which the blockQueue holds). The disk digest keeps row membership, so "the
+// same transaction on disk" and "still to be replayed from the block DB" stay distinct.
 func (s *c11Sys) key() string {
 	if s.d == nil || s.d.l == nil {
 		return "dead"
 	}
 	var b strings.Builder
 	l := s.d.l
-	fmt.Fprintf(&b, "r%d db%d|", l.Latest(), s.d.dbRound())
+	latest := l.Latest()
+	next := latest + 1
+	fmt.Fprintf(&b, "r%d db%d|", latest, s.d.dbRound())
 	for _, i := range s.scen {
-		if r, ok := s.ref.committed[i]; ok {
-			fmt.Fprintf(&b, "%d,", r)
-		} else {
-			b.WriteString("-,")
+		switch {
+		case next > s.u[i].lv:
+			b.WriteString("x") // dead for every future round, committed or not
+		case s.committedIdx(i):
+			b.WriteString("C")
+		default:
+			b.WriteString("-")
 		}
 	}
 	t := &l.txTail
 	t.tailMu.RLock()
-	fmt.Fprintf(&b, "|lwm%d lbh%d|", t.lowWaterMark, t.lowestBlockHeaderRound)
-	var rounds []uint64
-	for r := range t.lastValid {
-		rounds = append(rounds, uint64(r))
-	}
-	sort.Slice(rounds, func(i, j int) bool { return rounds[i] < rounds[j] })
-	for _, r := range rounds {
-		var ids []string
-		for id, d := range t.lastValid[basics.Round(r)] {
-			ids = append(ids, fmt.Sprintf("%x:%d", id[:6], d))
+	fmt.Fprintf(&b, "|lwm%d|", t.lowWaterMark)
+	var ents []string
+	for lv, m := range t.lastValid {
+		if lv < next {
+			continue
 		}
-		sort.Strings(ids)
-		fmt.Fprintf(&b, "lv%d=%v;", r, ids)
-	}
-	rounds = rounds[:0]
-	for r := range t.recent {
-		rounds = append(rounds, uint64(r))
-	}
-	sort.Slice(rounds, func(i, j int) bool { return rounds[i] < rounds[j] })
-	for _, r := range rounds {
-		var ls []string
-		for k, exp := range t.recent[basics.Round(r)].txleases {
-			ls = append(ls, fmt.Sprintf("%x/%x:%d", k.Sender[:2], k.Lease[:2], exp))
+		for id := range m {
+			ents = append(ents, fmt.Sprintf("%d:%x", lv, id[:8]))
 		}
-		sort.Strings(ls)
-		fmt.Fprintf(&b, "rc%d=%v;", r, ls)
 	}
-	rounds = rounds[:0]
-	for r := range t.blockHeaderData {
-		rounds = append(rounds, uint64(r))
+	sort.Strings(ents)
+	fmt.Fprintf(&b, "lv%v|", ents)
+	ents = ents[:0]
+	for _, rl := range t.recent {
+		for k, exp := range rl.txleases {
+			if exp >= next {
+				ents = append(ents, fmt.Sprintf("%x/%x:%d", k.Sender[:2], k.Lease[:2], exp))
+			}
+		}
 	}
-	sort.Slice(rounds, func(i, j int) bool { return rounds[i] < rounds[j] })
-	fmt.Fprintf(&b, "bh%v nser%d", rounds, len(t.roundTailSerializedDeltas))
+	sort.Strings(ents)
+	fmt.Fprintf(&b, "ls%v", ents)
 	t.tailMu.RUnlock()
-	// persisted tail
+	// persisted tail (live part)
 	dbr := s.d.dbRound()
 	if dbr > 0 {
 		_ = l.trackerDBs.Snapshot(func(ctx context.Context, tx trackerdb.SnapshotScope) error {
@@ -428,21 +475,31 @@ func (s *c11Sys) key() string {
 				fmt.Fprintf(&b, "|diskerr %v", err)
 				return nil
 			}
-			fmt.Fprintf(&b, "|disk base%d n%d:", base, len(data))
+			fmt.Fprintf(&b, "|disk n%d:", int(dbr)+1-int(base))
+			ents = ents[:0]
 			for _, rd := range data {
-				fmt.Fprintf(&b, "%d[", rd.Hdr.Round)
 				for i := range rd.TxnIDs {
-					fmt.Fprintf(&b, "%x:%d,", rd.TxnIDs[i][:6], rd.LastValid[i])
+					if rd.LastValid[i] >= next {
+						ents = append(ents, fmt.Sprintf("%d:%x", rd.LastValid[i], rd.TxnIDs[i][:8]))
+					}
 				}
 				for _, le := range rd.Leases {
-					fmt.Fprintf(&b, "L%x/%x@%d,", le.Sender[:2], le.Lease[:2], le.TxnIdx)
+					if int(le.TxnIdx) < len(rd.LastValid) && rd.LastValid[le.TxnIdx] >= next {
+						ents = append(ents, fmt.Sprintf("L%x/%x:%d", le.Sender[:2], le.Lease[:2], rd.LastValid[le.TxnIdx]))
+					}
 				}
-				b.WriteString("]")
 			}
+			sort.Strings(ents)
+			fmt.Fprintf(&b, "%v", ents)
 			return nil
 		})
 	}
 	return ve.HashKey([]byte(b.String()))
+}
+
+func (s *c11Sys) committedIdx(i int) bool {
+	_, ok := s.ref.committed[i]
+	return ok
 }
 
 type c11Scenario struct {
@@ -450,104 +507,133 @@ type c11Scenario struct {
 	txs  [][4]int // sender, lease, fv, lv
 }
 
-func c11Scenarios(thorough bool) []c11Scenario {
+func c11Scenarios() []c11Scenario {
 	A, B := 0, 1
-	sc := []c11Scenario{
+	return []c11Scenario{
 		{"dup-windows", [][4]int{{A, 0, 1, 5}, {A, 0, 2, 6}, {B, 0, 3, 3}}},
 		{"lease-succession", [][4]int{{A, 1, 1, 3}, {A, 1, 2, 6}, {A, 1, 4, 7}}},
 		{"lease-isolation", [][4]int{{A, 1, 1, 5}, {B, 1, 1, 5}, {A, 2, 2, 6}}},
 		{"lease-short", [][4]int{{A, 1, 1, 1}, {A, 1, 2, 2}, {A, 0, 1, 5}}},
 		{"lease-late", [][4]int{{B, 2, 2, 6}, {B, 2, 3, 7}, {B, 0, 3, 7}}},
+		// thorough only from here
+		{"lease-chain", [][4]int{{A, 1, 1, 2}, {A, 1, 3, 4}, {A, 1, 5, 7}}},
+		{"mixed-1", [][4]int{{A, 1, 2, 4}, {B, 1, 2, 6}, {A, 0, 2, 4}}},
+		{"mixed-2", [][4]int{{B, 2, 1, 5}, {B, 2, 5, 9}, {B, 0, 5, 9}}},
+		{"mixed-3", [][4]int{{A, 2, 3, 7}, {A, 2, 4, 4}, {A, 1, 3, 7}}},
+		{"late-windows", [][4]int{{A, 1, 4, 8}, {A, 1, 5, 9}, {A, 0, 4, 8}}},
+		{"four-leases", [][4]int{{A, 1, 1, 4}, {A, 1, 3, 7}, {B, 1, 2, 6}, {A, 1, 6, 9}}},
 	}
-	if thorough {
-		sc = append(sc,
-			c11Scenario{"lease-chain", [][4]int{{A, 1, 1, 2}, {A, 1, 3, 4}, {A, 1, 5, 7}}},
-			c11Scenario{"mixed-1", [][4]int{{A, 1, 2, 4}, {B, 1, 2, 6}, {A, 0, 2, 4}}},
-			c11Scenario{"mixed-2", [][4]int{{B, 2, 1, 5}, {B, 2, 5, 7}, {B, 0, 5, 7}}},
-			c11Scenario{"mixed-3", [][4]int{{A, 2, 3, 7}, {A, 2, 4, 4}, {A, 1, 3, 7}}},
-		)
+}
+
+type c11Config struct {
+	scen int    // index into c11Scenarios
+	lb   uint64 // MaxAcctLookback
+	mem  bool   // in-memory SQLite kept alive by keeper connections / real files
+}
+
+func c11Configs() []c11Config {
+	if !ve.Thorough() {
+		return []c11Config{
+			{0, 0, true}, {1, 0, true}, {2, 0, true}, {3, 0, true}, {4, 0, true},
+			{1, 2, true}, {0, 2, false},
+		}
 	}
-	return sc
+	var cfgs []c11Config
+	for sc := range c11Scenarios() {
+		cfgs = append(cfgs, c11Config{sc, 0, true})
+	}
+	for sc := range c11Scenarios() {
+		cfgs = append(cfgs, c11Config{sc, 2, true})
+	}
+	for _, sc := range []int{0, 1, 2} {
+		cfgs = append(cfgs, c11Config{sc, 0, false}, c11Config{sc, 1, false})
+	}
+	return cfgs
 }
 
 func TestVerif_C11(t *testing.T) {
 	r := ve.NewRun("C11", "model_checking")
+	// production nodes run with deadlock detection off unless explicitly configured; the
+	// detector serialises every lock operation of the 16 explorer workers on one global mutex
+	deadlock.Opts.Disable = true
 	proto := c11RegisterProto()
 	maxRound := basics.Round(ve.Pick(6, 8))
-	lookbacks := ve.Pick([]uint64{0}, []uint64{0, 2})
 	u := c11Universe(maxRound + 1)
-	masks := c11BlockMasks(3)
-	nops := len(masks) + 3
+	all := c11Scenarios()
 	var cov ve.Coverage
 	cov.Exhaustive = true
-	nscen := 0
-	for _, lb := range lookbacks {
-		for _, sc := range c11Scenarios(ve.Thorough()) {
-			if r.OutOfTime() {
-				cov.Exhaustive = false
-				break
-			}
-			sc, lb := sc, lb
-			var scen []int
-			ok := true
-			for _, q := range sc.txs {
-				if basics.Round(q[3]) > maxRound+1 {
-					ok = false
-				}
-			}
-			if !ok {
-				continue
-			}
-			for _, q := range sc.txs {
-				scen = append(scen, c11Find(u, q[0], q[1], basics.Round(q[2]), basics.Round(q[3])))
-			}
-			q := &ve.Seq[*c11Sys]{
-				Name:   fmt.Sprintf("c11/%s/lb%d", sc.name, lb),
-				NumOps: nops,
-				OpName: func(op int) string {
-					if op < len(masks) {
-						var names []string
-						for b, idx := range scen {
-							if masks[op]&(1<<uint(b)) != 0 {
-								names = append(names, u[idx].String())
-							}
+	nrun := 0
+	var skipped []string
+	for _, cf := range c11Configs() {
+		cf := cf
+		sc := all[cf.scen]
+		store := "mem"
+		if !cf.mem {
+			store = "file"
+		}
+		name := fmt.Sprintf("c11/%s/lb%d/%s", sc.name, cf.lb, store)
+		if r.OutOfTime() {
+			cov.Exhaustive = false
+			skipped = append(skipped, name)
+			continue
+		}
+		var scen []int
+		for _, q := range sc.txs {
+			scen = append(scen, c11Find(u, q[0], q[1], basics.Round(q[2]), basics.Round(q[3])))
+		}
+		masks := c11BlockMasks(len(scen))
+		nops := len(masks) + 3
+		memo := &sync.Map{}
+		q := &ve.Seq[*c11Sys]{
+			Name:   name,
+			NumOps: nops,
+			OpName: func(op int) string {
+				if op < len(masks) {
+					var names []string
+					for b, idx := range scen {
+						if masks[op]&(1<<uint(b)) != 0 {
+							names = append(names, u[idx].String())
 						}
-						return "blk(" + strings.Join(names, ",") + ")"
 					}
-					return []string{"flush", "reload", "reopen"}[op-len(masks)]
-				},
-				New: func() *c11Sys {
-					s := &c11Sys{u: u, scen: scen, ref: c11Ref{committed: map[int]basics.Round{}}, maxRound: maxRound, run: r, proto: proto}
-					d, err := c11Open(lb, true)
-					if err != nil {
-						panic(fmt.Sprintf("c11: cannot open ledger: %v", err))
-					}
-					s.d = d
-					return s
-				},
-				Close:    func(s *c11Sys) { s.d.close() },
-				Apply:    func(s *c11Sys, op int) (bool, error) { return s.apply(op, masks) },
-				Key:      func(s *c11Sys) string { return s.key() },
-				Observe:  func(s *c11Sys) string { return s.commitString() },
-				MaxDepth: 64,
-			}
-			res := q.Explore(r)
-			cov.AddSeq(res)
-			nscen++
-			if !res.Exhaustive || !res.FrontierEmptied {
-				cov.Exhaustive = false
-			}
-			if r.Violations() > 0 {
-				break
-			}
+					return "blk(" + strings.Join(names, ",") + ")"
+				}
+				return []string{"flush", "reload", "reopen"}[op-len(masks)]
+			},
+			New: func() *c11Sys {
+				s := &c11Sys{u: u, scen: scen, ref: c11Ref{committed: map[int]basics.Round{}}, maxRound: maxRound, run: r, proto: proto, memo: memo}
+				d, err := c11Open(cf.lb, cf.mem)
+				if err != nil {
+					panic(fmt.Sprintf("c11: cannot open ledger: %v", err))
+				}
+				s.d = d
+				return s
+			},
+			Close:    func(s *c11Sys) { s.d.close() },
+			Apply:    func(s *c11Sys, op int) (bool, error) { return s.apply(op, masks) },
+			Key:      func(s *c11Sys) string { return s.key() },
+			Observe:  func(s *c11Sys) string { return s.commitString() },
+			MaxDepth: 64,
+		}
+		res := q.Explore(r)
+		cov.AddSeq(res)
+		nrun++
+		if !res.Exhaustive || !res.FrontierEmptied {
+			cov.Exhaustive = false
+		}
+		if r.Violations() > 0 {
+			break
 		}
 	}
-	r.Set("scenarios", nscen)
+	r.Set("explorations", nrun)
+	if len(skipped) > 0 {
+		r.Note("out of time before starting: %v", skipped)
+	}
 	r.Set("universe_txns", len(u))
 	r.Set("max_round", uint64(maxRound))
-	cov.Rule = fmt.Sprintf("BFS to fixpoint over all sequences of blk(S) (S subset of 3 scenario payments, |S|<=2, rounds 1..%d), flush, reload, close+reopen on a real file-backed Ledger (MaxTxnLife=4, MaxAcctLookback in %v), %d scenarios; after every op all %d universe payments (2 senders x 3 leases x all windows of length<=4 in [1,%d]) are checked through Ledger.CheckDup, TestTransactionGroup and TransactionGroup against the committed-set/lease-table reference", maxRound, lookbacks, nscen, len(u), maxRound+1)
+	cov.Rule = fmt.Sprintf("BFS to fixpoint (frontier emptied) over all sequences of blk(S) (S subset of the 3-4 scenario payments, |S|<=2, rounds 1..%d), flush, reloadLedger, Close+OpenLedger on a real Ledger (MaxTxnLife=4), %d explorations (scenario x MaxAcctLookback x in-memory/file SQLite); after every new op all %d universe payments (2 senders x 3 leases x all windows of length<=4 in [1,%d]) are checked through Ledger.CheckDup, TestTransactionGroup and TransactionGroup against the committed-set/lease-table reference; every new block is also re-validated by Ledger.Validate", maxRound, nrun, len(u), maxRound+1)
 	r.Assume("blockQueue syncer drained after every block (notifyCommit has run); flushes happen only where the op sequence says so (lastFlushTime pinned)")
-	r.Assume("signature verification mocked (unsigned transactions); restarts are process-level (Close/OpenLedger), not power loss")
+	r.Assume("signature verification mocked (unsigned transactions); restarts are process-level (Close/OpenLedger), not power loss; in-memory explorations keep the SQLite shared-cache databases alive across Close with one extra connection")
+	r.Assume("state merging: states with equal round, DB round, live committed set, live txTail memory and live persisted tail are explored once (see key())")
 	if r.Finish(cov) > 0 {
 		t.Fatal("violations")
 	}
